@@ -378,6 +378,7 @@ def run(ctx):
         for kind in ["random", "alternate"]:
             _check_rollout(ctx, name, env, kind, 8, functional=False, idx=idx)
             idx += 1
+        ctx.gc(1)          # every MJX environment compiles large programs: release them before the next one
     try:
         from lerax.env.unitree.g1 import G1Locomotion, G1Standing, G1Standup
         for name, cls in [("G1Locomotion", G1Locomotion), ("G1Standing", G1Standing), ("G1Standup", G1Standup)]:
@@ -385,5 +386,6 @@ def run(ctx):
             _check_action_space(ctx, name, env, idx)
             _check_rollout(ctx, name, env, "random", 8, functional=False, idx=idx)
             idx += 1
+            ctx.gc(1)
     except Exception as e:  # noqa: BLE001
         ctx.note(f"G1 rollouts skipped: {type(e).__name__}: {e}"[:200])
